@@ -38,6 +38,9 @@ type powerFS struct {
 	armed    bool // a failure may strike at mutating calls
 	failed   bool
 	segsOnly bool // only segment files are candidates for losing data
+	// failSync: one Sync call (symbolic choice) fails with an I/O error without committing anything
+	failSync   bool
+	syncFailed bool
 }
 
 func (p *powerFS) lookup(name string) *pfFile {
@@ -187,6 +190,11 @@ func (f *powerFile) Truncate(size int64) error {
 }
 
 func (f *powerFile) Sync() error {
+	if f.p.failSync && !f.p.syncFailed && vChoice("syncerr", 2) == 1 {
+		f.p.syncFailed = true
+		vCover("power.sync-call-failed")
+		return errInjected
+	}
 	err := f.File.Sync()
 	if err != nil {
 		return err
